@@ -136,6 +136,9 @@ package client
 //@ func github.com/refraction-networking/utls.UClient
 //@   flag trusted
 //@   ensures ret0 != nil
+//@ func github.com/gorilla/websocket.NewClient
+//@   flag trusted
+//@   ensures err == nil ==> c != nil
 //@ func (*WSOverTLS).Handshake
 //@   requires ws != nil && rawConn != nil && holdsNone()
 //@   requires keyOK: typeIs[*[32]byte](authInfo.ServerPubKey) && authInfo.ServerPubKey.(*[32]byte) != nil && authInfo.WorldState.Rand != nil && len(authInfo.UID) == 16
